@@ -155,6 +155,8 @@ def rand_stmt(rnd, depth=0, names=NAMES, files=(), allow_ctl=True):
             apm.simple(rnd.choice(["make_bin", "make_raw", "make_wav", "make_turbo_wav", "make_bk0010_rom"]),
                        *([f'"{rnd.choice(["out.bin", "o/x.wav", "name", ""])}"' + rnd.choice(["", "", ', "NAME"', ", <40000000000>", ', "a" <300> <1114112.>'])]
                          if rnd.random() < 0.6 else [])),
+            apm.simple(rnd.choice(["make_raw", "make_bin", "make_wav", "insert_file", ".include"]),
+                       rnd.choice(['"a" <0> "b"', '"a" <0xd800>', '"zz" <0xdc00> ".mac"', '"o/" <377> <1> ".bin"', '"x.wav", "N" <0xdfff>', '"\\x00"', '<0>'])),
             apm.simple(rnd.choice([".list", ".nlist", ".page", ".title some text", ".sbttl sub title", ".ident /v1/", ".error oops", ".error",
                                    ".ident <40000000000>", ".ident <-1>", ".title <1114112.> /x/", ".error <4294967296.>", ".ident <nosuch>", ".ident"])),
         ])
